@@ -220,6 +220,10 @@ class Indicator(ABC):
 
         self._calculate_sub_indicators(False, start_index, end_index)
 
+        # Leave the active index on the newest candle, as calculate() does
+        if self.candles:
+            self._set_active_index(len(self.candles) - 1)
+
     def _find_calc_index(self) -> int:
         """Optimisation method, to find where to start calculating the indicator from
         Searches from newest to oldest to find the first candle without the indicator
